@@ -389,6 +389,42 @@ pub fn gen_file(rng: &mut Rng, dups: bool) -> JFile {
                 .collect(),
         });
     }
+    if dups {
+        // gcov >= 9: one entry per instance of a function group - repeat line numbers on purpose,
+        // with and without branches and with branch arrays of different lengths; functions that
+        // share a demangled name (constructor variants)
+        let k = lines.len();
+        for i in 0..k {
+            if rng.chance(1, 2) {
+                let mut l = lines[i].clone();
+                l.count = if rng.chance(1, 8) { Counter::Int(u64::MAX - rng.below(3)) } else { gen_counter(rng) };
+                let nb = match rng.below(4) {
+                    0 => 0,
+                    1 => l.branches.len() as u64,
+                    2 => l.branches.len() as u64 + rng.range(1, 2),
+                    _ => rng.range(1, 4),
+                };
+                l.branches = (0..nb)
+                    .map(|_| JBr { count: gen_counter(rng), throw: rng.chance(1, 4), fallthrough: rng.chance(1, 2) })
+                    .collect();
+                let at = rng.below(lines.len() as u64 + 1) as usize;
+                lines.insert(at, l);
+            }
+        }
+        let k = functions.len();
+        for i in 0..k {
+            if rng.chance(1, 2) {
+                let mut g = functions[i].clone();
+                g.name = format!("_Z{}v", rng.below(1000));
+                g.execution_count = gen_counter(rng);
+                if rng.chance(1, 2) {
+                    g.start_line = gen_u32(rng);
+                }
+                let at = rng.below(functions.len() as u64 + 1) as usize;
+                functions.insert(at, g);
+            }
+        }
+    }
     JFile { file, functions, lines }
 }
 
@@ -527,7 +563,14 @@ pub fn to_tree(d: &JDoc, rng: &mut Rng, shuffle: bool) -> J {
     finish_obj(rng, kvs, shuffle)
 }
 
-/// What the document says, written independently of grcov.
+/// What the document says, written independently of grcov and key by key (no running map):
+/// * a line's count is the SUM of the counts of all entries with its number, clamped at 2^64-1
+///   (gcov >= 9 lists a line once per template instantiation / constructor variant);
+/// * its branch vector is as long as the longest `branches` array among those entries, slot i taken
+///   iff some entry has a positive count at position i; lines none of whose entries has branches have
+///   no vector;
+/// * a function (demangled name) is executed iff some entry with that name has a positive execution
+///   count, and starts where the first such entry starts.
 pub fn sem(d: &JDoc) -> Vec<(String, CovResult)> {
     let mut out = vec![];
     for f in &d.files {
@@ -535,17 +578,29 @@ pub fn sem(d: &JDoc) -> Vec<(String, CovResult)> {
             continue;
         }
         let mut cov = CovResult::default();
-        for l in &f.lines {
-            cov.lines.insert(l.line_number, l.count.value());
-            if !l.branches.is_empty() {
-                cov.branches
-                    .insert(l.line_number, l.branches.iter().map(|b| b.count.value() > 0).collect());
+        let mut nums: Vec<u32> = f.lines.iter().map(|l| l.line_number).collect();
+        nums.sort();
+        nums.dedup();
+        for n in nums {
+            let entries: Vec<&JLine> = f.lines.iter().filter(|l| l.line_number == n).collect();
+            let total: u128 = entries.iter().map(|l| l.count.value() as u128).sum();
+            cov.lines.insert(n, total.min(u64::MAX as u128) as u64);
+            let slots = entries.iter().map(|l| l.branches.len()).max().unwrap_or(0);
+            if slots > 0 {
+                let v: Vec<bool> = (0..slots)
+                    .map(|i| entries.iter().any(|l| l.branches.get(i).map(|b| b.count.value() > 0).unwrap_or(false)))
+                    .collect();
+                cov.branches.insert(n, v);
             }
         }
-        for x in &f.functions {
+        let mut names: Vec<&String> = f.functions.iter().map(|x| &x.demangled_name).collect();
+        names.sort();
+        names.dedup();
+        for name in names {
+            let entries: Vec<&JFn> = f.functions.iter().filter(|x| &x.demangled_name == name).collect();
             cov.functions.insert(
-                x.demangled_name.clone(),
-                Function { start: x.start_line, executed: x.execution_count.value() > 0 },
+                name.clone(),
+                Function { start: entries[0].start_line, executed: entries.iter().any(|x| x.execution_count.value() > 0) },
             );
         }
         out.push((f.file.clone(), cov));
@@ -579,6 +634,41 @@ pub fn features(d: &JDoc) -> Vec<&'static str> {
     for x in &d.files {
         if x.lines.is_empty() {
             f.push("file.without_lines");
+        }
+        let mut nums: Vec<u32> = x.lines.iter().map(|l| l.line_number).collect();
+        nums.sort();
+        nums.dedup();
+        for n in nums {
+            let es: Vec<&JLine> = x.lines.iter().filter(|l| l.line_number == n).collect();
+            if es.len() > 1 {
+                f.push("line.listed_several_times");
+                let lens: Vec<usize> = es.iter().map(|l| l.branches.len()).collect();
+                if lens.iter().any(|&k| k == 0) && lens.iter().any(|&k| k > 0) {
+                    f.push("line.repeated.with_and_without_branches");
+                }
+                let pos: Vec<usize> = lens.iter().cloned().filter(|&k| k > 0).collect();
+                if pos.iter().any(|&k| k != pos[0]) {
+                    f.push("line.repeated.branch_arrays_of_different_length");
+                }
+                if es.iter().map(|l| l.count.value() as u128).sum::<u128>() > u64::MAX as u128 {
+                    f.push("line.repeated.sum_saturates");
+                }
+                if es.iter().any(|l| l.count.value() > 0) && es.last().map(|l| l.count.value() == 0).unwrap_or(false) {
+                    f.push("line.repeated.last_entry_zero_but_executed");
+                }
+            }
+        }
+        let mut names: Vec<&String> = x.functions.iter().map(|g| &g.demangled_name).collect();
+        names.sort();
+        names.dedup();
+        for name in names {
+            let es: Vec<&JFn> = x.functions.iter().filter(|g| &g.demangled_name == name).collect();
+            if es.len() > 1 {
+                f.push("function.demangled_name_shared");
+                if es.iter().any(|g| g.execution_count.value() > 0) && es.last().map(|g| g.execution_count.value() == 0).unwrap_or(false) {
+                    f.push("function.shared_name.last_entry_not_executed_but_executed");
+                }
+            }
         }
         for l in &x.lines {
             f.push("line");
